@@ -389,29 +389,31 @@ func (e *stateEmitter) Emit(s scheduler.State) {
 }
 
 type exec struct {
-	rs       RunSpec
-	log      *vt.APILog
-	errs     map[int]error // class -> error value
-	cancel   context.CancelFunc
-	cmu      sync.Mutex
-	cdone    bool
-	cbegun   bool
-	ctx2     context.Context
-	cancel2  context.CancelFunc
-	c2done   bool
-	c2begun  bool
-	inBody   int32
-	inBar    int32         // barrier jobs in flight
-	maxBar   int32         // most barrier jobs ever in flight together
-	barFull  chan struct{} // closed when all barrier jobs are in flight
-	barOnce  sync.Once
-	holdc    chan struct{} // closed to release the held body
-	heldc    chan struct{} // closed when the held body has started
-	heldOnce sync.Once
-	nostamp  bool
-	col      *vt.Collector
-	gate     func(j int) // scripted runs: blocks the body of job j until released
-	over     int32       // set when the run has been judged; late timers must not log into the next run
+	rs         RunSpec
+	log        *vt.APILog
+	errs       map[int]error // class -> error value
+	cancel     context.CancelFunc
+	cmu        sync.Mutex
+	cdone      bool
+	cbegun     bool
+	ctx2       context.Context
+	cancel2    context.CancelFunc
+	c2done     bool
+	c2begun    bool
+	inBody     int32
+	inBar      int32         // barrier jobs in flight
+	maxBar     int32         // most barrier jobs ever in flight together
+	barFull    chan struct{} // closed when all barrier jobs are in flight
+	barRelease chan struct{} // closed by the driver when the barrier cannot fill
+	barVerdict string
+	barOnce    sync.Once
+	holdc      chan struct{} // closed to release the held body
+	heldc      chan struct{} // closed when the held body has started
+	heldOnce   sync.Once
+	nostamp    bool
+	col        *vt.Collector
+	gate       func(j int) // scripted runs: blocks the body of job j until released
+	over       int32       // set when the run has been judged; late timers must not log into the next run
 }
 
 // doCancel cancels the context and stamps the Cancel event after cancel()
@@ -531,15 +533,33 @@ func (x *exec) prompt(ctx context.Context, s *scheduler.Scheduler) {
 		time.Sleep(200 * time.Microsecond)
 		x.doCancel()
 	}
-	prompt := 0
-	select {
-	case <-returned:
-		prompt = 1
-	case <-time.After(1500 * time.Millisecond):
+	// Wait must return while the held body is still running. Not returning is decided by the goroutine
+	// dump (everything parked for good while the body is held), never by the clock alone.
+	switch vt.WaitOrStuck(returned, 1500*time.Millisecond, time.Second, 12*time.Second, x.interesting, x.log.Progress) {
+	case "done":
+		x.log.Add(vt.APIEvent{Ev: "prompt", Run: rs.Run, P: 1, Job: rs.Hold})
+	case "stuck":
+		x.log.Add(vt.APIEvent{Ev: "prompt", Run: rs.Run, P: 0, Job: rs.Hold})
+	default:
+		x.log.Add(vt.APIEvent{Ev: "info", Run: rs.Run, Note: "probe skipped: neither prompt nor provably stuck"})
 	}
-	x.log.Add(vt.APIEvent{Ev: "prompt", Run: rs.Run, P: prompt, Job: rs.Hold})
 	close(x.holdc)
 	<-returned
+}
+
+// interesting lists the goroutines a probe looks at: the scheduler's and the driver's, without the caller.
+func (x *exec) interesting() []vt.Goroutine {
+	var out []vt.Goroutine
+	self := vt.GoID()
+	for _, g := range vt.Dump() {
+		if g.ID == self {
+			continue
+		}
+		if strings.Contains(g.Text, "go.uber.org/cff/scheduler.") || strings.Contains(g.Text, "main.execRun.func") || strings.Contains(g.Text, "main.(*exec).") {
+			out = append(out, g)
+		}
+	}
+	return out
 }
 
 // ctxOf returns the context job j is enqueued with.
@@ -612,7 +632,7 @@ func (x *exec) body(j int) func(context.Context) error {
 			select {
 			case <-x.barFull:
 				time.Sleep(300 * time.Microsecond) // stay in flight a little: a surplus worker would show now
-			case <-time.After(1500 * time.Millisecond):
+			case <-x.barRelease: // the driver found the scheduler provably unable to fill the barrier (or gave up)
 			}
 			atomic.AddInt32(&x.inBar, -1)
 		}
@@ -641,7 +661,7 @@ func (x *exec) body(j int) func(context.Context) error {
 
 // execRun executes one run on the real scheduler.
 func execRun(rs RunSpec, log *vt.APILog, col *vt.Collector, nostamp bool, deadline time.Duration) (hang bool) {
-	x := &exec{rs: rs, log: log, errs: map[int]error{}, nostamp: nostamp, col: col, barFull: make(chan struct{}),
+	x := &exec{rs: rs, log: log, errs: map[int]error{}, nostamp: nostamp, col: col, barFull: make(chan struct{}), barRelease: make(chan struct{}),
 		holdc: make(chan struct{}), heldc: make(chan struct{})}
 	if col != nil {
 		col.ResetSeen()
@@ -768,6 +788,12 @@ func execRun(rs RunSpec, log *vt.APILog, col *vt.Collector, nostamp bool, deadli
 			handles[j] = s.Enqueue(x.ctxOf(ctx, j), scheduler.Job{Run: x.body(j), Dependencies: deps})
 		}
 		sleepUs(rs.WaitUs)
+		if rs.Barrier > 0 {
+			// under-capacity is decided by the goroutine dump, not by a timeout
+			x.barVerdict = vt.WaitOrStuck(x.barFull, 1500*time.Millisecond, time.Second, 12*time.Second, x.interesting,
+				func() int64 { return log.Progress() + int64(atomic.LoadInt32(&x.maxBar)) })
+			close(x.barRelease)
+		}
 		if rs.Hold > 0 {
 			x.prompt(ctx, s)
 			return
@@ -778,7 +804,9 @@ func execRun(rs RunSpec, log *vt.APILog, col *vt.Collector, nostamp bool, deadli
 		err := s.Wait(ctx)
 		kind, toks := x.classify(err)
 		log.Add(vt.APIEvent{Ev: "waitret", Run: rs.Run, Kind: kind, Toks: toks})
-		if rs.Barrier > 0 && !nostamp {
+		if rs.Barrier > 0 && !nostamp && x.barVerdict == "slow" && int(atomic.LoadInt32(&x.maxBar)) < effN(rs.N) {
+			log.Add(vt.APIEvent{Ev: "info", Run: rs.Run, Note: "probe skipped: barrier neither full nor provably stuck"})
+		} else if rs.Barrier > 0 && !nostamp {
 			log.Add(vt.APIEvent{Ev: "capacity", Run: rs.Run, P: int(atomic.LoadInt32(&x.maxBar)), C: effN(rs.N)})
 		}
 	}()
